@@ -25,8 +25,8 @@ Full statement / proved / missing
   `Equals` (`tyEq`, the mirror of every `Equals` method) accept each other, also when they are not the same term — permuted
   Variant/Enum/Pattern members, Tuple size given vs implied; also checked on the implementation for every generated pair (`eq-not-asg-*`).
   `C03_refl_all` PROVED: A accepts A for EVERY well-formed type, Data / RichData nested anywhere (the left-weakening principle stopped at
-  an alias on the right; `weaken_variant_all` / `weaken_optional_all` do not); likewise `C03_variant_all`, `C03_optional_all`,
-  `C03_mono_variant_all`, `C03_mono_optional_all` without the `NoAlias` / `NoAliasR` side conditions.
+  an alias on the right; `weaken_variant_all` / `weaken_optional_all` do not); likewise `C03_refl_eq_all` (equal types accept each other),
+  `C03_variant_all`, `C03_optional_all`, `C03_mono_variant_all`, `C03_mono_optional_all` without the `NoAlias` / `NoAliasR` side conditions.
 * laws — `C03_top`, `C03_unit`, `C03_variant`, `C03_optional` PROVED.
 * monotonicity — PROVED for every covariant hole the property lists: `C03_mono_array`, `C03_mono_hash_key`, `C03_mono_hash_value`,
   `C03_mono_tuple` (any slot), `C03_mono_struct` (any member's value type), `C03_mono_variant`, `C03_mono_optional`, `C03_mono_notUndef`,
@@ -105,6 +105,15 @@ theorem C03_optional (cfg : Cfg) (sfh : Bool) (a : Ty) (hwf : Ty.WF cfg a) (hna 
 /-- A accepts A for EVERY well-formed type: Data / RichData may be nested anywhere (below Variant / Optional / NotUndef included) -/
 theorem C03_refl_all (cfg : Cfg) (sfh : Bool) (a : Ty) (hwf : Ty.WF cfg a) : asg cfg sfh a a = true :=
   asg_refl_all cfg sfh a.w a (Nat.le_refl _) hwf
+
+/-- equal types (`tyEq`, the mirror of every `Equals` method) accept each other — every well-formed pair, aliases nested anywhere -/
+theorem C03_refl_eq_all (cfg : Cfg) (sfh : Bool) (a b : Ty) (wa : Ty.WF cfg a) (wb : Ty.WF cfg b)
+    (h : tyEq a b = true) : asg cfg sfh a b = true ∧ asg cfg sfh b a = true :=
+  eq_asg_all cfg sfh (a.w + b.w) a b (Nat.le_refl _) wa wb h
+
+/-- non-vacuity: equal but different terms with an alias inside (permuted Variant members) -/
+example : tyEq (.variant [.data, .tuple [.richData] none]) (.variant [.tuple [.richData] (some ⟨1, 1⟩), .data]) = true := by
+  simp [tyEq, tyEqIncl, tyEqAny, tyEqL, tupleSize, Rng.exact]
 
 theorem C03_variant_all (cfg : Cfg) (sfh : Bool) (ts : List Ty) (a : Ty) (hm : a ∈ ts) (hwf : Ty.WF cfg a) :
     asg cfg sfh (.variant ts) a = true := wv_all cfg sfh hm (C03_refl_all cfg sfh a hwf)
